@@ -57,6 +57,19 @@ class GBox(Generic[_GT]):
 class GBox2(Generic[_GT]):
     items: List[_GT]
 ''', ["GBox[LocItem]", "GBox2[LocItem]", "List[GBox[LocItem]]"], None),
+    "str_subclass": ('''
+class MyStr(str):
+    pass
+''', ["Union[MyStr, int]", "Union[int, MyStr, None]", "List[Union[MyStr, int]]"], None),
+    "other_module_discriminator": ('''
+import sys as _sys
+_om = types.ModuleType("mvc_c17_other_" + __name__.replace(".", "_"))
+_sys.modules[_om.__name__] = _om
+exec("from dataclasses import dataclass\\nfrom mashumaro import DataClassDictMixin\\n@dataclass\\nclass OBase(DataClassDictMixin):\\n    pass\\n@dataclass\\nclass OV1(OBase):\\n    kind: str = 'v1'\\n    a: int = 0\\n", _om.__dict__)
+OBase, OV1 = _om.OBase, _om.OV1
+from mashumaro.types import Discriminator
+ODisc = Annotated[OBase, Discriminator(field="kind", include_subtypes=True)]
+''', ["ODisc", "List[ODisc]"], None),
     "builtins_generics": ("", ["types.MappingProxyType[str, int]", "re.Pattern", "collections.deque[int]", "collections.OrderedDict[str, H1]",
                                 "collections.defaultdict[str, H1]", "collections.defaultdict[str, List[int]]", "zoneinfo.ZoneInfo", "pathlib.PosixPath"], None),
 }
@@ -112,6 +125,15 @@ def awkward_task(payload):
 
 
 SAMPLES = {
+    "str_subclass": {
+        "Union[MyStr, int]": ("'a'", "v == 'a'"),
+        "Union[int, MyStr, None]": ("'a'", "v == 'a'"),
+        "List[Union[MyStr, int]]": ("['a', 1]", "v == ['a', 1]"),
+    },
+    "other_module_discriminator": {
+        "ODisc": ("{'kind': 'v1', 'a': 2}", "type(v) is OV1 and v.a == 2"),
+        "List[ODisc]": ("[{'kind': 'v1', 'a': 2}]", "type(v[0]) is OV1"),
+    },
     "generic_with_local_arg": {
         "GBox[LocItem]": ("{'content': {'price': '7'}}", "type(v.content) is LocItem and v.content.price == 7"),
         "GBox2[LocItem]": ("{'items': [{'price': '7'}]}", "type(v.items[0]) is LocItem and v.items[0].price == 7"),
